@@ -34,7 +34,7 @@ for (file, ln, a, b, rp, fn) in cands[:N]:
     path = os.path.join(WT, file); src = open(path).read(); lines = src.split('\n')
     old = lines[ln]; lines[ln] = old[:a] + rp + old[b:]
     open(path, 'w').write('\n'.join(lines))
-    p = subprocess.run(['/verif/check', 'unit:' + unit], capture_output=True, text=True, env=dict(os.environ, VERIF_REPO=WT))
+    p = subprocess.run(['/verif/check', 'unit:' + unit], capture_output=True, text=True, env=dict(os.environ, VERIF_REPO=WT, VERIF_BUILD='/tmp/vx-mut-build'))
     out = p.stdout
     if 'FAILED' in out: k = 'detected'
     elif 'UNDECIDED' in out:
